@@ -91,12 +91,14 @@ def isEmptyVal : Val → Bool
   | .list [] => true
   | _ => false
 
-/-- `getattr(node, a)`; `comments` has the class-level default None -/
+/-- `getattr(node, a)`; `comments` has the class-level default None.  The `@…` entries of a dump are
+metadata, not Python attributes of that name. -/
 def getattrVal (node : Val) (a : String) : Except Err Val :=
   if a == "comments" then
     match nodeAttr node "@comments" with
     | some v => .ok v
     | none => .ok .none
+  else if Val.isMeta a then .error (.attributeError a)
   else match nodeAttr node a with
     | some v => .ok v
     | none => .error (.attributeError a)
